@@ -37,10 +37,11 @@ type Exch struct {
 }
 
 type Client struct {
-	Net   string `json:"net"` // udp | tcp
-	After int    `json:"after,omitempty"`
-	Exch  []Exch `json:"exch"`
-	Spoof int    `json:"spoof,omitempty"` // forged foreign-ID datagrams injected towards this client
+	Net      string `json:"net"` // udp | tcp
+	After    int    `json:"after,omitempty"`
+	Exch     []Exch `json:"exch"`
+	Spoof    int    `json:"spoof,omitempty"`    // forged foreign-ID datagrams injected towards this client
+	Pipeline bool   `json:"pipeline,omitempty"` // tcp: all queries are written before any reply is read; the handlers answer asynchronously
 }
 
 type Scenario struct {
@@ -165,6 +166,13 @@ func Gen(seed uint64, tier string) any {
 		}
 		if c.Net == "udp" && core.Chance(r, 30) {
 			c.Spoof = 1 + r.IntN(3)
+		}
+		if c.Net == "tcp" && core.Chance(r, 20) {
+			c.Pipeline = true
+			for j := range c.Exch {
+				c.Exch[j].H.Kind = core.Pick(r, "async", "async", "normal")
+				c.Exch[j].TimeoutMs = 60000
+			}
 		}
 		sc.Clients = append(sc.Clients, c)
 	}
@@ -436,6 +444,9 @@ func (x *run) ServeDNS(w dns.ResponseWriter, r *dns.Msg) {
 		k.Unlock()
 	}
 	switch p.Kind {
+	case "async":
+		// answer later, from another task, while the server already reads the next query of this connection
+		k.Go("async-"+tok, &asyncReply{k: k, m: mk(r.Id, p.ReplySize), send: send, steps: p.Steps, sleepMs: p.SleepMs})
 	case "raw":
 		sendRaw(mk(r.Id, p.ReplySize))
 	case "rawoversize":
@@ -462,9 +473,34 @@ func (x *run) ServeDNS(w dns.ResponseWriter, r *dns.Msg) {
 	default:
 		send(mk(r.Id, p.ReplySize))
 	}
+	// the request is still the handler's at the end: later traffic must not have changed it
+	if err := exp.Unpack(clone(ex.reqBytes)); err == nil && !reflect.DeepEqual(r, exp) {
+		k.Lock()
+		x.res.Fail("X1", "request-changed-under-handler", "the request held by the handler for %s changed while it was running (now: %s)", tok, oneLine(r.String()))
+		k.Unlock()
+	}
 	k.Lock()
 	k.EffectLocked("h.exit " + tok)
 	k.Unlock()
+}
+
+type asyncReply struct {
+	k       *kernel.K
+	m       *dns.Msg
+	send    func(*dns.Msg)
+	steps   int
+	sleepMs int
+}
+
+//go:norace
+func (a *asyncReply) RunEvent(time.Time) {
+	if a.steps > 0 {
+		a.k.WaitSteps("async.steps", a.steps, time.Millisecond)
+	}
+	if a.sleepMs > 0 {
+		a.k.Sleep("async.sleep", time.Duration(a.sleepMs)*time.Millisecond)
+	}
+	a.send(a.m)
 }
 
 //go:norace
@@ -549,6 +585,10 @@ func (c *clientTask) RunEvent(time.Time) {
 			k.Unlock()
 		}
 	}
+	if plan.Pipeline && sconn != nil {
+		c.pipeline(co, sconn)
+		return
+	}
 	reads := 0 // completed ReadMsg calls on a stream, = index of the next frame
 	for ei, e := range plan.Exch {
 		ex := x.ex[tok(c.ci, ei)]
@@ -556,6 +596,12 @@ func (c *clientTask) RunEvent(time.Time) {
 		m.SetQuestion(ex.token+".test.", dns.TypeTXT)
 		m.Id = ex.id
 		m.Compress = e.Compress
+		if (c.ci+ei)%2 == 0 {
+			// address records: fixed-size RDATA that a decoder is tempted to leave pointing into the receive buffer
+			// (one answer and one authority record still pass the default accept policy)
+			m.Answer = append(m.Answer, &dns.A{Hdr: dns.RR_Header{Name: ex.token + ".test.", Rrtype: dns.TypeA, Class: dns.ClassINET, Ttl: 1}, A: []byte{10, byte(c.ci), byte(ei), 1}})
+			m.Ns = append(m.Ns, &dns.AAAA{Hdr: dns.RR_Header{Name: ex.token + ".test.", Rrtype: dns.TypeAAAA, Class: dns.ClassINET, Ttl: 1}, AAAA: []byte{0x20, 1, 0xd, 0xb8, 0, 0, 0, 0, 0, 0, 0, 0, 0, byte(c.ci), byte(ei), 1}})
+		}
 		sized(m, e.Size)
 		b, perr := m.Pack()
 		if perr != nil {
@@ -614,6 +660,79 @@ func (c *clientTask) RunEvent(time.Time) {
 		k.Unlock()
 		if sconn != nil && err != nil && out != "errid" {
 			break // the stream is in an unknown position after an I/O error
+		}
+	}
+	co.Close()
+}
+
+// pipeline writes every query of the client, then reads the replies in
+// whatever order the asynchronous handlers produce them.
+//
+//go:norace
+func (c *clientTask) pipeline(co *dns.Conn, sconn *simnet.StreamConn) {
+	x, k := c.x, c.x.k
+	plan := x.sc.Clients[c.ci]
+	sconn.SetDeadline(time.Now().Add(2 * time.Minute))
+	sent := 0
+	for ei, e := range plan.Exch {
+		ex := x.ex[tok(c.ci, ei)]
+		m := new(dns.Msg)
+		m.SetQuestion(ex.token+".test.", dns.TypeTXT)
+		m.Id = ex.id
+		m.Compress = e.Compress
+		sized(m, min(e.Size, 4096))
+		b, perr := m.Pack()
+		if perr != nil {
+			continue
+		}
+		k.Lock()
+		ex.reqBytes = clone(b)
+		k.Unlock()
+		if co.WriteMsg(m) != nil {
+			break
+		}
+		sent++
+	}
+	expect := 0
+	for ei, e := range plan.Exch {
+		if ei < sent && e.H.Kind != "silent" {
+			expect++
+		}
+	}
+	seen := map[string]bool{}
+	for i := 0; i < expect; i++ {
+		r, err := co.ReadMsg()
+		if err != nil {
+			k.Lock()
+			x.res.Fail("X1", "pipelined-reply-missing", "client %d pipelined %d queries; reading reply %d of %d failed: %v", c.ci, sent, i+1, expect, err)
+			k.Unlock()
+			break
+		}
+		b, _ := r.Pack()
+		x.bump("oracle.X1_pipelined_reply")
+		ok := false
+		k.Lock()
+		for ei := range plan.Exch {
+			ex := x.ex[tok(c.ci, ei)]
+			for _, w := range ex.written {
+				dm := new(dns.Msg)
+				if dm.Unpack(clone(w)) == nil && reflect.DeepEqual(dm, r) && !seen[ex.token+string(w)] {
+					ok = true
+					seen[ex.token+string(w)] = true
+					ex.done, ex.outcome = true, "reply"
+					break
+				}
+			}
+			if ok {
+				break
+			}
+		}
+		if !ok {
+			x.res.Fail("X1", "pipelined-reply-unknown", "client %d read a pipelined reply that no handler of its queries wrote (or read one twice): %s (%d octets)", c.ci, oneLine(r.String()), len(b))
+		}
+		k.Unlock()
+		if !ok {
+			break
 		}
 	}
 	co.Close()
